@@ -5,6 +5,7 @@ import (
 	"net"
 	"regexp"
 	"strconv"
+	"sync"
 
 	"github.com/refraction-networking/conjure/pkg/station/geoip"
 	"github.com/refraction-networking/conjure/pkg/station/liveness"
@@ -28,6 +29,10 @@ type RegConfig struct {
 	// isthe station capable of handling v4 / v6 with independent toggles.
 	EnableIPv4 bool `toml:"enable_v4"`
 	EnableIPv6 bool `toml:"enable_v6"`
+
+	// policyLock guards the covert and phantom blocklists / allowlists below. A reload
+	// (RegistrationManager.OnReload) replaces them while ingest workers are reading them.
+	policyLock sync.RWMutex
 
 	// Local list of disallowed subnets for covert addresses.
 	CovertBlocklistSubnets []string `toml:"covert_blocklist_subnets"`
@@ -180,6 +185,9 @@ func (c *RegConfig) ParseOrResolveBlocklisted(provided string) (string, bool) {
 // isBlocklistedCovertAddr checks if the provided host string should be
 // blocked by on of the blocklisted subnets.
 func (c *RegConfig) isBlocklistedCovertAddr(addr net.IP) bool {
+	c.policyLock.RLock()
+	defer c.policyLock.RUnlock()
+
 	if c.enableCovertAllowlist {
 		// If allowlist check is enabled it takes precedence over blocklist.
 		for _, net := range c.covertAllowlistSubnets {
@@ -204,6 +212,9 @@ func (c *RegConfig) isBlocklistedCovertAddr(addr net.IP) bool {
 // isBlocklistedCovertDomain checks if the provided host string should be
 // blocked by on of the blocklisted Domain patterns.
 func (c *RegConfig) isBlocklistedCovertDomain(provided string) bool {
+	c.policyLock.RLock()
+	defer c.policyLock.RUnlock()
+
 	for _, pattern := range c.covertBlocklistDomains {
 		if pattern.MatchString(provided) {
 			return true
@@ -216,6 +227,9 @@ func (c *RegConfig) isBlocklistedCovertDomain(provided string) bool {
 // IsBlocklistedPhantom checks if the provided address should be
 // denied by on of the blocklisted Phantom subnets.
 func (c *RegConfig) IsBlocklistedPhantom(addr net.IP) bool {
+	c.policyLock.RLock()
+	defer c.policyLock.RUnlock()
+
 	for _, net := range c.phantomBlocklist {
 		if net.Contains(addr) {
 			// blocked by IP address
